@@ -240,6 +240,9 @@ pub fn candidates(seed: u64) -> Vec<Value> {
     // two large random 3-CNFs (40 variables, 70 clauses: ~10^5 component-cache states), checked by sampling
     out.push(json!({"case": "dnnf_large", "nvars": 40, "nclauses": 70, "seed": 1}));
     out.push(json!({"case": "dnnf_large", "nvars": 40, "nclauses": 70, "seed": seed.wrapping_add(2)}));
+    // more than 64 variables (sparse: few clauses, so most variables are free) and more than 64 clauses over few variables
+    out.push(json!({"case": "dnnf_large", "nvars": 72, "nclauses": 16, "seed": seed.wrapping_add(3)}));
+    out.push(json!({"case": "dnnf_large", "nvars": 12, "nclauses": 70, "seed": seed.wrapping_add(4)}));
     // clauses of four literals on distinct variables, 6 variables, random orders: one decision can falsify two literals
     // of a clause that stays open, which is where the residual hash and the watch lists are exercised hardest
     for _ in 0..400 {
